@@ -92,7 +92,7 @@ Fixpoint any_match (label : str) (ls : list str) : bool :=
 
 Definition has_label (t : target) (label : str) : bool :=
   if any_match label (t_labels t) then true
-  else str_eqb label (lit implicit_test_label) && t_test t.
+  else t_test t && match_ label (lit implicit_test_label).
 
 Fixpoint has_all_labels (t : target) (labels : list str) : bool :=
   match labels with
